@@ -1,0 +1,30 @@
+//go:build verif
+
+package agent
+
+import (
+	"github.com/postalsys/muti-metroo/internal/flood"
+	"github.com/postalsys/muti-metroo/internal/identity"
+	"github.com/postalsys/muti-metroo/internal/protocol"
+	"github.com/postalsys/muti-metroo/internal/sleep"
+)
+
+// VerifProcessFrame hands a frame to the agent's frame dispatcher exactly as
+// the peer read loop does.
+func (a *Agent) VerifProcessFrame(peerID identity.AgentID, frame *protocol.Frame) {
+	a.processFrame(peerID, frame)
+}
+
+// VerifFlooder exposes the agent's flooder (to install a recording sender).
+func (a *Agent) VerifFlooder() *flood.Flooder { return a.flooder }
+
+// VerifInitSleepManager creates the sleep manager the way Start does (same
+// configuration, data directory and local identity) without starting the
+// rest of the agent, and installs the given callbacks instead of the
+// agent's own (which need live listeners and peers).
+func (a *Agent) VerifInitSleepManager(cb sleep.Callbacks) *sleep.Manager {
+	a.sleepMgr = sleep.NewManager(a.cfg.Sleep, a.dataDir, a.logger)
+	a.sleepMgr.SetLocalID(a.id)
+	a.sleepMgr.SetCallbacks(cb)
+	return a.sleepMgr
+}
